@@ -180,14 +180,21 @@ pub struct Driver<'a> {
     pub w: ArchiveWriter<'a, SharedSink>,
     pub sink: SharedSink,
     pub par: Par,
-    /// bytes handed over so far per real file id
+    /// bytes handed over so far per (model) file id
     pub fed: HashMap<u64, usize>,
+    /// model id -> id returned by the real start_file (ids are the writer's choice: only their role is specified)
+    pub idmap: HashMap<u64, u64>,
 }
 
 impl Driver<'_> {
     pub fn new(par: &Par, sink: SharedSink) -> Result<Self, Error> {
         let w = ArchiveWriter::from_config(sink.clone(), writer_config(par))?;
-        Ok(Self { w, sink, par: par.clone(), fed: HashMap::new() })
+        Ok(Self { w, sink, par: par.clone(), fed: HashMap::new(), idmap: HashMap::new() })
+    }
+
+    /// the real id playing the role of model id `m`; an id the real writer never handed out for ids the model never did
+    pub fn rid(&self, m: u64) -> u64 {
+        self.idmap.get(&m).copied().unwrap_or((1 << 40) + m)
     }
 
     /// Execute one model label; returns (result class, id returned by start)
@@ -197,7 +204,12 @@ impl Driver<'_> {
             "start" => {
                 let name = real_name(lab["n"].as_str().unwrap());
                 match self.w.start_file(&name) {
-                    Ok(id) => ("Ok".into(), Some(id)),
+                    Ok(id) => {
+                        if let Some(m) = lab.get("id").and_then(Value::as_u64) {
+                            self.idmap.insert(m, id);
+                        }
+                        ("Ok".into(), Some(id))
+                    }
                     Err(e) => (classify(&e, false).into(), None),
                 }
             }
@@ -212,7 +224,7 @@ impl Driver<'_> {
                     _ => len,
                 };
                 let data = file_bytes(&self.par, id, from, avail);
-                match self.w.append_file_content(id, len as u64, data.as_slice()) {
+                match self.w.append_file_content(self.rid(id), len as u64, data.as_slice()) {
                     Ok(()) => {
                         // only bytes of an existing, open file count (the model decides that through its result)
                         ("Ok".into(), None)
@@ -226,7 +238,8 @@ impl Driver<'_> {
                 let len = lab["len"].as_u64().unwrap() as usize;
                 let from = *self.fed.get(&id).unwrap_or(&0);
                 let data = file_bytes(&self.par, id, from, len);
-                let mut sw = mla::helpers::StreamWriter::new(&mut self.w, id);
+                let real = self.rid(id);
+                let mut sw = mla::helpers::StreamWriter::new(&mut self.w, real);
                 match sw.write_all(&data).and_then(|()| sw.flush()) {
                     Ok(()) => ("Ok".into(), None),
                     Err(_) => ("EIo".into(), None),
@@ -234,7 +247,7 @@ impl Driver<'_> {
             }
             "end" => {
                 let id = lab["id"].as_u64().unwrap();
-                match self.w.end_file(id) {
+                match self.w.end_file(self.rid(id)) {
                     Ok(()) => ("Ok".into(), None),
                     Err(e) => (classify(&e, false).into(), None),
                 }
